@@ -1,3 +1,70 @@
-From TL Require Import Lib.Base Model.Skel Model.Nesting Model.NestingRun Actual.NestingActual.
-Theorem placeholder : True. Proof. exact I. Qed.
-Print Assumptions placeholder.
+(* Props/C01.v — property C01 (nesting: exact depth, off-by-one boundary, cross-language agreement).
+   Only statements closed by `exact <lemma>` and their Print Assumptions. *)
+From TL Require Import Lib.Base Lib.GenTypes Gen.NestingGen Model.Skel Model.Nesting
+     Proofs.NestingTs Proofs.NestingPy Proofs.NestingMain.
+
+(* 1. For every quirk vector whose language flags are off, every limit and every admissible file
+      (any number of functions / methods / arrow functions, any mix and shape of constructs):
+      the linter model reports exactly the functions whose documented depth exceeds the limit,
+      each once, at its header position, stating that depth. *)
+Theorem C01_ts_report_exact : forall q limit file,
+  q_ts_elseif_nests q = false -> file_good Ts file = true ->
+  report Ts q limit file = spec_report limit file.
+Proof. intros q limit file H G. exact (ts_report_exact q H limit file G). Qed.
+Print Assumptions C01_ts_report_exact.
+
+Theorem C01_rs_report_exact : forall q limit file,
+  q_rs_elseif_nests q = false -> q_rs_table_from_code q = false -> file_good Rs file = true ->
+  report Rs q limit file = spec_report limit file.
+Proof. intros q limit file H1 H2 G. exact (rs_report_exact q H1 H2 limit file G). Qed.
+Print Assumptions C01_rs_report_exact.
+
+Theorem C01_py_report_exact : forall q limit file,
+  q_py_start_from_code q = false -> q_py_table_from_code q = false ->
+  1 <= limit -> file_good Py file = true ->
+  report Py q limit file = spec_report limit file.
+Proof. intros q limit file H1 H2 L G. exact (py_report_exact q H1 H2 limit file L G). Qed.
+Print Assumptions C01_py_report_exact.
+
+(* 2. The same skeleton gets the same depth and verdict in every language. *)
+Theorem C01_cross_language : forall q limit file,
+  q_py_start_from_code q = false -> q_py_table_from_code q = false -> q_ts_elseif_nests q = false ->
+  q_rs_elseif_nests q = false -> q_rs_table_from_code q = false ->
+  1 <= limit -> file_good Py file = true -> file_good Ts file = true -> file_good Rs file = true ->
+  report Py q limit file = report Ts q limit file /\ report Ts q limit file = report Rs q limit file.
+Proof. exact cross_language. Qed.
+Print Assumptions C01_cross_language.
+
+(* 3. Wrapping the deepest statement in one more control structure raises the depth by exactly
+      one, and the verdict flips at exactly one value of the limit. *)
+Theorem C01_wrap_plus_one : forall k body, counts k = true -> doc_depth (wrap_body k body) = S (doc_depth body).
+Proof. exact doc_depth_wrap. Qed.
+Print Assumptions C01_wrap_plus_one.
+
+Theorem C01_verdict_flips_once : forall body, exists! m, forall limit, (limit <? doc_depth body) = (limit <? m).
+Proof. exact verdict_flips_once. Qed.
+Print Assumptions C01_verdict_flips_once.
+
+(* 4. The message format found in the source states the depth. *)
+Theorem C01_message_states_depth : forall l line col name d,
+  message l (line, col, name, d) = sconcat ["Function '"; name; "' has excessive nesting depth ("; show_nat d; ")"].
+Proof. exact message_states_depth. Qed.
+Print Assumptions C01_message_states_depth.
+
+(* 5. The faithful Python model (start depth and table as found in the source) is exact up to the
+      constant offset on every function free of `async for` / `match` (partial: the full statement is 1). *)
+Theorem C01_py_actual_offset_partial : forall q f,
+  q_py_start_from_code q = true -> q_py_table_from_code q = true -> fn_good_actual f ->
+  py_calc q (fn_body f) + (1 - py_start_depth) = doc_depth (fn_body f)
+  \/ (maxl (map nest (fn_body f)) = 0 /\ py_calc q (fn_body f) = 0).
+Proof. intros q f H1 H2 G. exact (py_calc_actual_offset q H1 H2 f G). Qed.
+Print Assumptions C01_py_actual_offset_partial.
+
+(* non-vacuity: an admissible file in all three languages with functions on both sides of a limit *)
+Definition ex_file : list tree :=
+  [T (KFn FDef "f" 1 0) [T KFor [T KIf [T KSimple []; T KElif [T KWhile [T KSimple []]]; T KElse [T KSimple []]]]];
+   T KClass [T (KFn FMethod "m" 9 4) [T KSimple []]]].
+Example C01_nonvacuous :
+  file_good Py ex_file = true /\ file_good Ts ex_file = true /\ file_good Rs ex_file = true
+  /\ spec_report 3 ex_file = [(1, 0, "f", 4)] /\ spec_report 4 ex_file = [].
+Proof. vm_compute. repeat split; reflexivity. Qed.
